@@ -208,7 +208,7 @@ def gen_a64dyn(limit=None):
         try:
             ir = {ck: rustexpr.translate(expr, variables, ck) for ck in (True, False)}
         except rustexpr.Untranslatable as e:
-            return dict(skip=f"untranslatable: {e}")
+            return dict(skip=f"untranslatable: {e}", exec_only=True, vals=vals, line=line, expr=expr, K=int(m.group(1)), vars=variables, ir=None, form=fi, consistent=None)
         res = dict(vals=vals, line=line, expr=expr, K=int(m.group(1)), vars=variables, ir=ir, form=fi, consistent=None)
         # self-test at the documented value (floats enter as f32 bits)
         try:
@@ -242,7 +242,7 @@ def gen_a64dyn(limit=None):
             ob["skip"] = "no base instantiation"
         else:
             ob.update(chosen)
-            if "skip" not in chosen:
+            if "skip" not in chosen or chosen.get("exec_only"):
                 ob["constraint"] = fs[ob["form"]].constraints.get(ob["idx"])
                 ob["mnemonic"] = fs[ob["form"]].mnemonic
                 ob["entry"] = (entry_of[ob["form"]]["m"], entry_of[ob["form"]]["i"])
